@@ -21,6 +21,7 @@ EXPLANATION = (
     "when c is negative (folded for a positive and a negative literal: the key is the node id, an undetermined child stands for the literal itself)."
     " Added after seed round 6: W9 a waiting parent is re-queued by LogicFormula.propagate with its own recorded value (table over current[parent])."
     " Added after seed round 9: W2's sign domain also folds is_probabilistic / is_true / is_false of the node; W7 reads comprehension generators over self.nodes."
+    " Added after seed round 10: W1 reads `(a, b)[test]` with a boolean test as `b if test else a` (dtable) and checks the polarity of every row add_atom still decides itself behind a helper."
 )
 TECHNIQUE = "static analysis: path-wise decision-table extraction of the option/evidence wiring"
 LEVEL_TEXT = EXPLANATION
@@ -66,6 +67,11 @@ def rule_w1(repo, col):
                        "add_atom fixes an atom to %s through %s, which decides from the raw weight%s: the decision must be taken by the semiring (is_zero / is_one of "
                        "self.semiring.value(probability)), which also validates the range of the weight and is correct for every semiring representation"
                        % (sorted(vals), h.qualname, "" if validated else " without calling self.semiring.value()"), construct="def %s: weight decision" % hname, function=h.qualname)
+        # a row that add_atom still decides itself (behind the helper) keeps its polarity
+        for kind, want in (("zero", "self.FALSE"), ("one", "self.TRUE")):
+            for val, test, conds in rows.get(kind, ()):
+                col.decide("W1", m, f.node, val == want, "weight is_%s -> %s" % (kind, want), "add_atom: a weight that is_%s must fold to %s; found return %s under %s" % (kind, want, val, test),
+                           construct="def add_atom: weight %s row" % kind, function="LogicFormula.add_atom")
         return
     for kind, want in (("zero", "self.FALSE"), ("one", "self.TRUE")):
         for val, test, conds in rows[kind]:
